@@ -4,7 +4,8 @@ import XPathV.Lemmas.ArithSem
 # C03 — through the builder
 
 Inversion of `build` on `child::t[P]` (`processFilter` with a positional predicate: the plain
-`.filter` form or the merge form, the predicate plan `PosForm.plan` of the recorded `firstInput`),
+`.filter` form or the merge form, the predicate plan `PosForm.plan` of the filtered step — the
+builder's `predInput`, read through `positionInput`),
 then the semantic statements of `Step`/`Stack` for the plan `build` returns.
 -/
 namespace XPathV.PosSem
@@ -17,7 +18,8 @@ variable (regexOk : RegexOk) (limit : Nat) (snt sdf : Bool)
 
 theorem build_position_inv (pfx : String) (fl : Flags) (st : BState) (o : BOut)
     (h : build regexOk limit snt sdf (.call "position" pfx .anil) fl st = .ok o) :
-    o.q = .func "position" (st.firstInput.getD .nil) .pnil ∧ o.st.firstInput = st.firstInput := by
+    o.q = .func "position" st.positionInput .pnil ∧ o.st.firstInput = st.firstInput ∧
+      o.st.predInput = st.predInput := by
   rw [build] at h
   replace h := enter_ok _ _ _ _ h
   have hn : Ast.anil.argList.length = 0 := rfl
@@ -33,11 +35,12 @@ theorem build_position_inv (pfx : String) (fl : Flags) (st : BState) (o : BOut)
   rw [build] at hao
   cases hao
   cases h
-  exact ⟨rfl, rfl⟩
+  exact ⟨rfl, rfl, rfl⟩
 
 theorem build_last_inv (pfx : String) (fl : Flags) (st : BState) (o : BOut)
     (h : build regexOk limit snt sdf (.call "last" pfx .anil) fl st = .ok o) :
-    o.q = .func "last" (st.firstInput.getD .nil) .pnil ∧ o.st.firstInput = st.firstInput := by
+    o.q = .func "last" st.positionInput .pnil ∧ o.st.firstInput = st.firstInput ∧
+      o.st.predInput = st.predInput := by
   rw [build] at h
   replace h := enter_ok _ _ _ _ h
   have hn : Ast.anil.argList.length = 0 := rfl
@@ -53,11 +56,11 @@ theorem build_last_inv (pfx : String) (fl : Flags) (st : BState) (o : BOut)
   rw [build] at hao
   cases hao
   cases h
-  exact ⟨rfl, rfl⟩
+  exact ⟨rfl, rfl, rfl⟩
 
 theorem build_cmp_inv' (op : String) (hop : op ∈ cmpOps) (l r : Ast) (fl : Flags)
     (st : BState) (o : BOut) (h : build regexOk limit snt sdf (.oper op l r) fl st = .ok o) :
-    ∃ lo ro, build regexOk limit snt sdf l {} ⟨st.depth + 1, st.firstInput⟩ = .ok lo ∧
+    ∃ lo ro, build regexOk limit snt sdf l {} ⟨st.depth + 1, st.firstInput, st.predInput⟩ = .ok lo ∧
       build regexOk limit snt sdf r {} lo.st = .ok ro ∧
       o.q = .logical op lo.q ro.q := by
   rw [build] at h
@@ -72,7 +75,7 @@ theorem build_cmp_inv' (op : String) (hop : op ∈ cmpOps) (l r : Ast) (fl : Fla
 
 theorem build_minus_inv' (l r : Ast) (fl : Flags)
     (st : BState) (o : BOut) (h : build regexOk limit snt sdf (.oper "-" l r) fl st = .ok o) :
-    ∃ lo ro, build regexOk limit snt sdf l {} ⟨st.depth + 1, st.firstInput⟩ = .ok lo ∧
+    ∃ lo ro, build regexOk limit snt sdf l {} ⟨st.depth + 1, st.firstInput, st.predInput⟩ = .ok lo ∧
       build regexOk limit snt sdf r {} lo.st = .ok ro ∧
       o.q = .numeric "-" lo.q ro.q := by
   rw [build] at h
@@ -83,10 +86,11 @@ theorem build_minus_inv' (l r : Ast) (fl : Flags)
   simp at h
   cases h; rfl
 
-/-- the builder turns a positional predicate into `PosForm.plan` of the current `firstInput` -/
+/-- the builder turns a positional predicate into `PosForm.plan` of the current `positionInput`
+(inside a predicate: the step being filtered) -/
 theorem build_form_inv (f : PosForm) (fl : Flags) (st : BState) (o : BOut)
     (h : build regexOk limit snt sdf f.ast fl st = .ok o) :
-    o.q = f.plan (st.firstInput.getD .nil) := by
+    o.q = f.plan st.positionInput := by
   cases f with
   | lit lex => exact (build_num_inv regexOk limit snt sdf lex fl st o h).1
   | posCmp cop pfx lex =>
@@ -96,9 +100,10 @@ theorem build_form_inv (f : PosForm) (fl : Flags) (st : BState) (o : BOut)
     rw [hq, h1, h2]; rfl
   | posEqLast p1 p2 =>
     obtain ⟨lo, ro, hlo, hro, hq⟩ := build_cmp_inv' regexOk limit snt sdf "=" (by simp [cmpOps]) _ _ fl st o h
-    obtain ⟨h1, h1'⟩ := build_position_inv regexOk limit snt sdf p1 _ _ lo hlo
+    obtain ⟨h1, h1', h1''⟩ := build_position_inv regexOk limit snt sdf p1 _ _ lo hlo
     obtain ⟨h2, _⟩ := build_last_inv regexOk limit snt sdf p2 _ _ ro hro
-    rw [hq, h1, h2, h1']; rfl
+    rw [hq, h1, h2]
+    simp only [BState.positionInput, h1', h1'']; rfl
   | last pfx => exact (build_last_inv regexOk limit snt sdf pfx fl st o h).1
   | lastMinus pfx lex =>
     obtain ⟨lo, ro, hlo, hro, hq⟩ := build_minus_inv' regexOk limit snt sdf _ _ fl st o h
@@ -174,7 +179,7 @@ theorem build_filter_inv' (inp cond : Ast) (fl : Flags)
     (st : BState) (o : BOut) (h : build regexOk limit snt sdf (.filter inp cond) fl st = .ok o) :
     ∃ st1 io co,
       build regexOk limit snt sdf inp { fl with filter := true, smartDesc := fl.smartDesc && sdf } st1 = .ok io ∧
-      build regexOk limit snt sdf cond fl io.st = .ok co ∧
+      build regexOk limit snt sdf cond fl ⟨io.st.depth, io.st.firstInput, io.st.firstInput⟩ = .ok co ∧
       ((∀ n fi fp ar, co.q ≠ .func n (.filter fi fp) ar) →
         (o.q = .filter io.q co.q ∨
           (inp.isAxis = true ∧ ∃ parent, io.q.inputOf = some parent ∧
@@ -238,8 +243,8 @@ theorem build_posStep' (a : AxisInfo) (ha : a.axis = "child") (q : Ast) (hq : Fr
       ∀ c : Spec.Ctx, validRef d c.node = true → PosStepOK F d cfg a f o.q qi q c := by
   obtain ⟨st1, io, co, hio, hco, hres⟩ := build_filter_inv' regexOk limit true false _ _ fl st o hb
   obtain ⟨qi, hshape, hfirst, hqi⟩ := build_child_step_inv regexOk limit true false a ha q _ rfl st1 io hio
-  have hcq := build_form_inv regexOk limit true false f fl io.st co hco
-  rw [hfirst, Option.getD_some] at hcq
+  have hcq := build_form_inv regexOk limit true false f fl _ co hco
+  simp only [BState.positionInput, hfirst] at hcq
   have hnf : ∀ n fi fp ar, co.q ≠ .func n (.filter fi fp) ar := by
     rw [hcq]
     apply form_plan_not_filterfunc
@@ -325,7 +330,7 @@ theorem build_posChain_shape (a : AxisInfo) (ha : a.axis = "child") (q : Ast) (h
       ih (fun b' hb' => hbs b' (List.mem_cons_of_mem _ hb')) _ st1 io hio
     obtain ⟨hcop, hcor⟩ :=
       (build_frag (F := F) wf cfg hns hinj regexOk limit false b (hbs b List.mem_cons_self)).2 rfl
-        fl io.st co hco
+        fl _ co hco
     obtain ⟨hshape, _⟩ := hres hcop.2
     refine ⟨qi, pl0, co.q :: ps, ?_, hs, ⟨fun x hx pos size => hcor ⟨x, pos, size⟩ hx, hps⟩, hok⟩
     rcases hshape with h | ⟨hax, _⟩
